@@ -88,7 +88,22 @@ class Capture:
     m = pt()
     opc, cfgu = m["opcodes"], m["cfg_utils"]
     self.o_bo, self.o_mol, self.o_on = opc.build_opcodes, opc._make_opcode_list, cfgu.order_nodes
+    self.o_ase = opc._add_setup_except
     cap = self
+
+    def add_setup_except(offset_to_op, exc_table):
+      # input of the model of _add_setup_except: the items as _make_opcodes left them + the full table
+      cap.cur["pre"] = [(off, op.__class__.__name__, getattr(op, "argval", None) if op.has_known_jump() else None,
+                         op.line) for off, op in sorted(offset_to_op.items())]
+      cap.cur["table"] = [(e.start, e.end, e.target, bool(e.lasti)) for e in exc_table.entries]
+      try:
+        return cap.o_ase(offset_to_op, exc_table)
+      finally:
+        by_id = {id(op): off for off, op in offset_to_op.items()}
+        cap.cur["post"] = [(off, op.__class__.__name__, getattr(op, "argval", None) if op.has_known_jump() else None,
+                            by_id.get(id(op.target)) if getattr(op, "target", None) is not None else None,
+                            bool(getattr(op, "push_exc_block", False)), bool(getattr(op, "pop_exc_block", False)))
+                           for off, op in sorted(offset_to_op.items())]
 
     def build_opcodes(dis_code):
       cap.cur = {"entries": [(e.start, e.target) for e in dis_code.exception_table.entries],
@@ -114,12 +129,14 @@ class Capture:
       cap.cur = {}
       return r
     opc.build_opcodes, opc._make_opcode_list, cfgu.order_nodes = build_opcodes, make_opcode_list, order_nodes
+    opc._add_setup_except = add_setup_except
     return self
 
   def __exit__(self, *a):
     m = pt()
     m["opcodes"].build_opcodes, m["opcodes"]._make_opcode_list = self.o_bo, self.o_mol
     m["cfg_utils"].order_nodes = self.o_on
+    m["opcodes"]._add_setup_except = self.o_ase
     return False
 
 
@@ -191,6 +208,26 @@ def driver_line(raw, entries, ver_minor, with_pop, cls_index):
   for s, t in entries:
     f += [str(dbl(s)), str(dbl(t))]
   return " ".join(f)
+
+
+def x_line(pre, table, cls_index):
+  """`X` command of drv_c16: opcodes._add_setup_except on (items of offset_to_op, exception table)"""
+  f = ["X", str(len(pre)), str(len(table))]
+  for off, name, argval, line in pre:
+    av = argval if isinstance(argval, int) and argval >= 0 else 0
+    f += [str(off), str(cls_index[name]), str(av), str(line or 0)]
+  for s_, e_, t_, l_ in table:
+    f += [str(s_), str(e_), str(t_), "1" if l_ else "0"]
+  return " ".join(f)
+
+
+def x_expected(post, cls_index):
+  out = []
+  for off, name, argval, pre, push, pop in post:
+    av = argval if isinstance(argval, int) and argval >= 0 else 0
+    out.append("%d:%d:%d:%s:%d:%d" % (dbl(off), cls_index[name], av, "-" if pre is None else str(dbl(pre)),
+                                      1 if push else 0, 1 if pop else 0))
+  return "ok " + " ".join(out)
 
 
 def real_result(ops, nodes, order):
@@ -650,6 +687,7 @@ def _worker_sources(args):
   streams, compares.  Returns stats + mismatches."""
   batch, cls_index = args
   lines, expect, meta = [], [], []
+  xlines, xexpect, xmeta = [], [], []
   stats = collections.Counter()
   mism = []
   for name, src in batch:
@@ -683,6 +721,13 @@ def _worker_sources(args):
       lines.append(line)
       expect.append(real_result(cap["ops"], cap["nodes"], cap["order"]))
       meta.append((name, cap["name"], len(cap["ops"]), len(cap["nodes"]), src if len(src) < 6000 else None))
+      if "pre" in cap and "post" in cap:
+        try:
+          xlines.append(x_line(cap["pre"], cap["table"], cls_index))
+          xexpect.append(x_expected(cap["post"], cls_index))
+          xmeta.append((name, cap["name"], src if len(src) < 6000 else None, len(cap["table"])))
+        except KeyError as e:
+          mism.append({"kind": "class-not-in-table", "source_name": name, "class": str(e)})
       if any(r[5] and r[3] is None for r in cap["raw"]):
         mism.append({"kind": "pre-set-target-not-in-stream", "source_name": name, "code": cap["name"]})
   outs = run_driver(lines)
@@ -716,6 +761,25 @@ def _worker_sources(args):
                    "model": model if len(model) < 3000 else _first_diff(exp, model)[1]})
     elif len(samples) < 2 and 3 <= mt[3] <= 8 and mt[2] < 40:
       samples.append({"source_name": mt[0], "code": mt[1], "result": exp, "premises": pr})
+  # opcodes._add_setup_except: model vs real, item by item
+  for line, exp, got, mt in zip(xlines, xexpect, run_driver(xlines), xmeta):
+    stats["setup_except_streams"] += 1
+    stats["exception_table_entries"] += mt[3]
+    parts = got.rsplit("|", 1)
+    model, pr = (parts[0], parts[1]) if len(parts) == 2 else (got, "")
+    p = parse_premises(pr)
+    for k in ("evenOffs", "startsPos"):
+      if p.get(k, 0) != 1:
+        prem["premise_fail_" + k] += 1
+    if p.get("stopsOnOps", 0) != 1:
+      # guard of try_ranges_closed_partial only: pycnite's inclusive `end` sometimes falls between two ops
+      # (e.end not in offset_to_op -> the max() branch of _add_exception_block); counted, not a failure
+      prem["streams_with_a_range_ending_between_ops(outside try_ranges_closed_partial)"] += 1
+    if model != exp:
+      mism.append({"kind": "setup-except-model-vs-real", "source_name": mt[0], "code": mt[1], "source": mt[2],
+                   "driver_input": line if len(line) < 3000 else line[:3000] + "...",
+                   "real": exp if len(exp) < 2500 else _first_diff(exp, model)[0],
+                   "model": model if len(model) < 2500 else _first_diff(exp, model)[1]})
   return dict(stats), mism[:20], hashes, dict(prem), samples
 
 
